@@ -138,9 +138,12 @@ def models():
     # ---- a plain class with a default, nested in lists and unions ---------
     pt = C('Pt', [P('x', INT), P('y', STR, ['str', 'dflt'])])
     ms.append(M('plain', [pt], [K('Pt'), L(K('Pt')), D(K('Pt')),
-                                U(K('Pt'), INT), Opt(K('Pt'))],
+                                U(K('Pt'), INT), Opt(K('Pt')),
+                                U(K('Pt'), D(INT))],
                 keys=['x', 'y', 'z'], scalars=[S_42, S_ABC, S_15],
-                mtags=('map', '!Pt', '!Unknown'), oddkeys=[S_42], tn=5))
+                mtags=('map', '!Pt', '!Unknown'), oddkeys=[S_42], tn=5,
+                rtypes=[K('Pt'), L(K('Pt')), D(K('Pt')), U(K('Pt'), INT),
+                        Opt(K('Pt'))]))
     # ---- _yatiml_extra, untyped and Any parameters -------------------------
     ex = C('Ex', [P('a', INT), P('u'), P('w', ANY, ['null'])], extra=True)
     inner = C('In', [P('v', INT)])
